@@ -649,6 +649,57 @@ func announcerSetsScenario(nTx, extra int) func() func() []string {
 	}
 }
 
+// freshAnnouncerScenario (sequential): a transaction asked of its first announcer has nWaiting
+// further announcers inside the request window; after the timeout a peer that has NOT announced it
+// before announces it and is asked (the re-request path of AddTxID); it does not deliver either.
+// Every waiting announcer must still be offered the transaction by its polls, one per later window.
+func freshAnnouncerScenario(nWaiting int) func() func() []string {
+	return func() func() []string {
+		txm := bitcoin_reader.NewTxManager(txTimeout)
+		tx := mkTx(4000)
+		id := *tx.TxHash()
+		first, fresh := uuid.New(), uuid.New()
+		var waiting []uuid.UUID
+		var problems []string
+		if ok, _ := txm.AddTxID(bg, first, id); !ok {
+			problems = append(problems, "announce: the first announcer was not told to request")
+		}
+		for i := 0; i < nWaiting; i++ {
+			w := uuid.New()
+			waiting = append(waiting, w)
+			if ok, _ := txm.AddTxID(bg, w, id); ok {
+				problems = append(problems, "announce: a later announcer inside the request window was told to request")
+			}
+		}
+		vsched.Advance(txTimeout + time.Second)
+		if ok, _ := txm.AddTxID(bg, fresh, id); !ok {
+			problems = append(problems, "announce: a new announcer after the timeout was not told to request")
+		}
+		asked := 0
+		for round := 0; round < nWaiting; round++ {
+			vsched.Advance(txTimeout + time.Second)
+			// every waiting announcer polls; exactly one further announcer is asked per window
+			got := 0
+			for _, w := range waiting {
+				l, _ := txm.GetTxRequests(bg, w, 100)
+				if len(l) == 1 && l[0] == id {
+					got++
+				} else if len(l) != 0 {
+					problems = append(problems, "poll: unexpected transactions offered")
+				}
+			}
+			if got != 1 {
+				problems = append(problems, fmt.Sprintf("waiting-announcer-not-asked: in window %d after the re-request through a new announcer %d of the %d waiting announcers were offered the transaction, want exactly 1", round+1, got, nWaiting))
+			}
+			asked += got
+		}
+		return func() []string {
+			label(fmt.Sprintf("waiting=%d asked=%d ok=%t", nWaiting, asked, len(problems) == 0))
+			return problems
+		}
+	}
+}
+
 func c06Scenarios(thorough bool) []*scenario {
 	var r []*scenario
 	scripts := [][]string{{"A0"}, {"D0"}, {"A0", "D0"}, {"D0", "A0"}, {"A0", "A0"}, {"D0", "D0"}}
@@ -713,6 +764,9 @@ func c06Scenarios(thorough bool) []*scenario {
 	// closed, not yet marked not-ready)
 	for mask := 0; mask < 8; mask++ {
 		r = append(r, &scenario{name: fmt.Sprintf("nodemanager/retry-poll/stopping-%03b", mask), bounds: []int{0}, body: mgrPollScenario(mask), steps: 20000000})
+	}
+	for _, n := range []int{1, 2, 3} {
+		r = append(r, &scenario{name: fmt.Sprintf("txmanager/fresh-announcer-after-timeout/%d-waiting", n), bounds: []int{0}, body: freshAnnouncerScenario(n), steps: 50000})
 	}
 	r = append(r, &scenario{name: "txmanager/clean-cut-off-between-request-and-delivery", bounds: []int{0}, body: cleanCutoffScenario(), steps: 50000})
 	if thorough {
